@@ -25,7 +25,7 @@ TEXT = {
           "frontier is the fold of the accepted patches (state_is_fold_of_patches), a view at the acknowledged momentum is "
           "independent of how far the frontier has moved (view_independent_of_frontier), change sets are write-order "
           "independent; generated fact: no wall-clock/random/goroutine site outside the reviewed list. Tied to the code by "
-          "a producer + six followers under generated delivery schedules (batches, gossip ahead, gossiped RIVAL blocks of the "
+          "a producer + seven followers under generated delivery schedules (batches, gossip ahead, gossiped RIVAL blocks of the "
           "same account and height, restarts, overlaps) with byte-exact state comparison, by feeding the real redo patches "
           "through the model, and by a deep scenario: a chain longer than the near-cache window (360), historical views near "
           "and far materialised before the head momentum is replaced by a delivered branch, every view compared warm, after "
